@@ -111,6 +111,42 @@ def inline_stmt(st, fn, stop=()):
     return c
 
 
+def reach(e, at, fn, stop=(), depth=6):
+    """`e` (evaluated at statement `at` of fn) with each local name replaced by the value of the nearest plain assignment
+    `name = value` that precedes `at` in its own or an enclosing block, when no statement in between stores the name (a loop
+    boundary stops the search).  Unlike inline(), a name assigned once per branch resolves to the assignment of its branch."""
+    import copy as _copy
+
+    def value_of(name, st):
+        while st is not None and st is not fn:
+            par = pyfe.parent(st)
+            for fld in ("body", "orelse", "finalbody"):
+                blk = getattr(par, fld, None)
+                if isinstance(blk, list) and any(st is x for x in blk):
+                    k = [x is st for x in blk].index(True)
+                    for prev in reversed(blk[:k]):
+                        if any(isinstance(x, ast.Name) and x.id == name and isinstance(x.ctx, (ast.Store, ast.Del))
+                               for x in ast.walk(prev)):
+                            if isinstance(prev, ast.Assign) and len(prev.targets) == 1 and isinstance(prev.targets[0], ast.Name):
+                                return prev.value, prev
+                            return None, None
+            if isinstance(par, (ast.For, ast.While)):
+                return None, None
+            st = par
+        return None, None
+
+    def go(x, st, d):
+        class R(ast.NodeTransformer):
+            def visit_Name(self_, nd):
+                if isinstance(nd.ctx, ast.Load) and nd.id not in stop and d > 0:
+                    v_, where = value_of(nd.id, st)
+                    if v_ is not None:
+                        return go(_copy.deepcopy(v_), where, d - 1)
+                return nd
+        return R().visit(x)
+    return go(_copy.deepcopy(e), at, depth)
+
+
 def isrc(e, fn, stop=()):
     return pyfe.src(inline(e, fn, stop))
 
